@@ -571,3 +571,29 @@ Qed.
 (* on a dirty variable it is what the header says: the variable contributes the single sample sum_values *)
 Theorem compute1_dirty s xs : Inv s (Some xs) -> Inv (prep1 s) (Some [zsum xs]).
 Proof. intros H. apply (step_inv s (Some xs) OPrep1 H). discriminate. Qed.
+
+(* ---------- the full statement over histories ---------- *)
+(* For every number of ranks, every history of rounds, every choice of reduction trees in every round: after the LAST
+   compute (every prefix of a history is a history, so: after every compute) a rank on which the variable is clean keeps
+   what its own calls left, and every rank on which it is dirty holds the statistics of the union of the samples that
+   all ranks contributed since their last init / reset / set1 (ghost `ghist`, closed form: grun_since_last_setter) -
+   or stays dirty with count 0 when there is no sample at all. *)
+Theorem history_union sts ps rounds opss sts' :
+  Forall2 Inv sts ps -> legal_hist ps (rounds ++ [opss]) -> hist sts (rounds ++ [opss]) sts' ->
+  let ps1 := grun_all (ghist ps rounds) opss in
+  Forall2 Inv sts' (ghist ps (rounds ++ [opss])) /\
+  exists stsN, hist sts rounds stsN /\
+  forall i p1 s2, nth_error ps1 i = Some p1 -> nth_error sts' i = Some s2 ->
+    match p1 with
+    | None => nth_error (run_all stsN opss) i = Some s2
+    | Some _ => match union ps1 with [] => s2 = zero_dirty | _ :: _ => holds_union ps1 s2 end
+    end.
+Proof.
+  intros HI HL HH ps1. split; [apply (history_inv _ sts ps sts' HI HL HH)|].
+  destruct (history_round sts ps rounds opss sts' HI HL HH) as [stsN [H1 [H2 [H3 H4]]]].
+  exists stsN. split; [exact H1|]. intros i p1 s2 Hp Hs.
+  destruct (round_sound stsN (ghist ps rounds) opss sts' H2 H3 H4) as [_ H].
+  assert (exists s1, nth_error (run_all stsN opss) i = Some s1) as [s1 Hs1].
+  { pose proof (run_all_inv _ _ H2 opss H3) as HI1. destruct (Forall2_nth_r _ _ _ HI1 i p1 Hp) as [s1 [E _]]. exists s1; exact E. }
+  pose proof (H i s1 p1 s2 Hs1 Hp Hs) as HP. destruct p1; [exact HP|]. rewrite Hs1, HP. reflexivity.
+Qed.
